@@ -5,7 +5,12 @@
 //!
 //! ```text
 //! mgr <nvars>                      -> ok
-//! order <v>*                       -> <l2v0> <l2v1> …   (full permutation, only while no handle exists)
+//! order <v>* [seq=1]               -> <l2v0> <l2v1> …   (set_var_order / set_var_order_seq with live nodes; distinct
+//!                                                       variables, total or partial)
+//! clone <h> <a>                    -> ok
+//! gc                               -> <inner nodes stored after the collection>
+//! eq <a> <b>                       -> 1 | 0
+//! count <h>                        -> <node_count>
 //! const <h> f|t|u                  -> <tree>
 //! var <h> <v>                      -> <tree>
 //! node <h> <v> <ht> <hu> <he>      -> <tree>            (TDDRules::reduce + insert; children strictly below v)
@@ -27,6 +32,12 @@
 //! over all three-valued assignments equals the property's truth table applied to the operands'
 //! value tables; `eval` equals an independent walk over `cofactors()`; the cofactors are the
 //! restrictions; results are ordered and reduced; after `dropall` no inner node is left.
+//! Histories (C01, C03, C05, C08 on TDDs): every new handle is compared with every live handle
+//! (handle equality <=> equal value table); `gc` leaves exactly the nodes reachable from live handles,
+//! returns before - after and changes no value table; `order` establishes the requested relative
+//! order, keeps the value table of every live handle over all 3^n assignments and leaves a store
+//! that passes the structural audit through the public API; `count` equals the size of the reduced
+//! diagram computed from the value table alone.
 use oxidd::tdd::{TDDFunction, TDDManagerRef};
 use oxidd::{Function, Manager, ManagerRef, TVLFunction};
 use oxidd_core::util::AllocResult;
@@ -116,6 +127,9 @@ struct Tdd {
     mref: Option<TDDManagerRef>,
     nvars: u32,
     handles: HashMap<String, TDDFunction>,
+    /// value table of every live handle over all 3^n assignments (index: digit v = value of
+    /// variable v), recorded when the handle was created; only for managers with at most 5 variables
+    tables: HashMap<String, Vec<V>>,
 }
 
 /// `TDDRules::reduce` + insertion, the primitive node constructor (independent of the connectives)
@@ -289,11 +303,179 @@ impl Tdd {
         }
     }
 
-    fn define(&mut self, h: &str, f: TDDFunction) -> String {
+    /// value table by the independent walk (cross-checked with `eval`)
+    fn table_of(&self, f: &TDDFunction, ctx: &mut Ctx) -> Vec<V> {
+        self.assignments(&[]).iter().map(|s| self.value(f, s, ctx)).collect()
+    }
+
+    fn define(&mut self, h: &str, f: TDDFunction, ctx: &mut Ctx) -> String {
         let s = tree_str(&f);
+        if self.nvars <= 5 {
+            let t = self.table_of(&f, ctx);
+            // canonicity (C01): equal value tables <=> equal handles, against every live handle
+            if self.handles.len() <= 800 {
+                for (k, g) in &self.handles {
+                    if let Some(tg) = self.tables.get(k) {
+                        if (*tg == t) != (*g == f) {
+                            ctx.fail(
+                                "canonicity",
+                                &format!("new handle {} = {} and live handle {} = {}: handles {} but value tables {}", h, s, k, tree_str(g), if *g == f { "equal" } else { "differ" }, if *tg == t { "equal" } else { "differ" }),
+                            );
+                            break;
+                        }
+                    }
+                }
+            }
+            self.tables.insert(h.to_string(), t);
+        }
         self.handles.insert(h.to_string(), f);
         s
     }
+
+    /// every live handle still has the value table recorded at its creation
+    fn check_tables(&self, sig: &str, what: &str, ctx: &mut Ctx) {
+        let mut names: Vec<&String> = self.handles.keys().collect();
+        names.sort();
+        for k in names {
+            if let Some(t) = self.tables.get(k) {
+                let now = self.table_of(&self.handles[k], ctx);
+                if now != *t {
+                    let strs = |t: &Vec<V>| t.iter().map(|&v| v_str(v)).collect::<String>();
+                    ctx.fail(sig, &format!("{}: handle {} now is {} with value table {} but it was created with {}", what, k, tree_str(&self.handles[k]), strs(&now), strs(t)));
+                    return;
+                }
+            }
+        }
+    }
+
+    /// inner nodes reachable from the live handles
+    fn reachable(&self) -> usize {
+        fn go(f: &TDDFunction, seen: &mut std::collections::HashSet<TDDFunction>) {
+            if let Some((t, u, e)) = f.cofactors() {
+                if seen.insert(f.clone()) {
+                    go(&t, seen);
+                    go(&u, seen);
+                    go(&e, seen);
+                }
+            }
+        }
+        let mut seen = std::collections::HashSet::new();
+        for f in self.handles.values() {
+            go(f, &mut seen);
+        }
+        seen.len()
+    }
+
+    fn l2v(&self) -> Vec<u32> {
+        let n = self.nvars;
+        self.mref.as_ref().unwrap().with_manager_shared(|m| (0..n).map(|l| m.level_to_var(l)).collect())
+    }
+
+    fn audit(&self, what: &str, ctx: &mut Ctx) {
+        let n = self.nvars;
+        if let Err(msg) = self.mref.as_ref().unwrap().with_manager_shared(|m| audit(m, n)) {
+            ctx.fail("audit", &format!("{}: {}", what, msg));
+        }
+    }
+}
+
+/// Structural audit through the public API (C03): every stored node sits in the level view of its
+/// level number, its children are on strictly lower levels, it is reduced (not all three children
+/// equal), no two nodes of a level have the same children, `num_inner_nodes` is the sum of the
+/// level sizes, and `var_to_level`/`level_to_var` are inverse permutations.
+fn audit<M: Manager>(m: &M, n: u32) -> Result<usize, String>
+where
+    M::InnerNode: HasLevel,
+{
+    use oxidd_core::{Edge, InnerNode, LevelView};
+    if m.num_levels() != n {
+        return Err(format!("num_levels() = {} but {} variables were added", m.num_levels(), n));
+    }
+    let mut total = 0usize;
+    for l in 0..n {
+        let view = m.level(l);
+        if view.level_no() != l {
+            return Err(format!("level view {} reports level_no {}", l, view.level_no()));
+        }
+        let mut seen = std::collections::HashSet::new();
+        let mut cnt = 0usize;
+        for e in view.iter() {
+            cnt += 1;
+            let Node::Inner(node) = m.get_node(e) else {
+                return Err(format!("level {} stores an edge to a terminal", l));
+            };
+            if node.level() != l {
+                return Err(format!("a node stored at level {} carries level number {}", l, node.level()));
+            }
+            let mut ids = Vec::new();
+            for c in node.children() {
+                if let Node::Inner(cn) = m.get_node(&*c) {
+                    if cn.level() <= l {
+                        return Err(format!("a node at level {} has a child at level {}", l, cn.level()));
+                    }
+                }
+                ids.push(c.node_id());
+            }
+            if ids.len() != 3 {
+                return Err(format!("a node at level {} has {} children", l, ids.len()));
+            }
+            if ids[0] == ids[1] && ids[1] == ids[2] {
+                return Err(format!("a node at level {} has three equal children (not reduced)", l));
+            }
+            if !seen.insert(ids) {
+                return Err(format!("two nodes at level {} have the same children (duplicate)", l));
+            }
+        }
+        if cnt != view.len() {
+            return Err(format!("level {}: len() = {} but the iterator yields {} nodes", l, view.len(), cnt));
+        }
+        total += cnt;
+    }
+    if total != m.num_inner_nodes() {
+        return Err(format!("num_inner_nodes() = {} but the levels hold {} nodes", m.num_inner_nodes(), total));
+    }
+    for x in 0..n {
+        if m.var_to_level(m.level_to_var(x)) != x || m.level_to_var(m.var_to_level(x)) != x {
+            return Err(format!("var_to_level / level_to_var are not inverse at {}", x));
+        }
+    }
+    Ok(total)
+}
+
+/// number of nodes (inner and terminal) of the reduced ordered TDD of the function with value
+/// table `t` (index: digit v = value of variable v) under the order `l2v` — computed on tables only
+fn ref_node_count(t: &[V], l2v: &[u32]) -> usize {
+    let n = l2v.len();
+    // re-index: most significant digit = level 0
+    let mut lt = vec![0 as V; t.len()];
+    for (i, slot) in lt.iter_mut().enumerate() {
+        let mut k = i;
+        let mut idx = 0usize;
+        for j in (0..n).rev() {
+            let d = k % 3;
+            k /= 3;
+            idx += d * 3usize.pow(l2v[j]);
+        }
+        *slot = t[idx];
+    }
+    fn go(sub: &[V], l: usize, nodes: &mut std::collections::HashSet<(usize, Vec<V>)>) {
+        if sub.len() == 1 {
+            nodes.insert((usize::MAX, sub.to_vec()));
+            return;
+        }
+        let k = sub.len() / 3;
+        let (a, b, c) = (&sub[..k], &sub[k..2 * k], &sub[2 * k..]);
+        if a == b && b == c {
+            go(a, l + 1, nodes);
+        } else if nodes.insert((l, sub.to_vec())) {
+            go(a, l + 1, nodes);
+            go(b, l + 1, nodes);
+            go(c, l + 1, nodes);
+        }
+    }
+    let mut nodes = std::collections::HashSet::new();
+    go(&lt, 0, &mut nodes);
+    nodes.len()
 }
 
 fn oom<T>(r: AllocResult<T>) -> Result<T, String> {
@@ -303,6 +485,7 @@ fn oom<T>(r: AllocResult<T>) -> Result<T, String> {
 impl Scenario for Tdd {
     fn reset(&mut self) {
         self.handles.clear();
+        self.tables.clear();
         self.mref = None;
         self.nvars = 0;
     }
@@ -335,29 +518,63 @@ impl Scenario for Tdd {
         match (w[0], w.len()) {
             ("order", _) => {
                 let mut p = Vec::new();
+                let mut seq = false;
                 for x in &w[1..] {
-                    match pnat(x) {
-                        Some(v) => p.push(v),
-                        None => return bad,
-                    }
-                }
-                let mut sorted = p.clone();
-                sorted.sort();
-                if sorted != (0..n).collect::<Vec<_>>() || !self.handles.is_empty() {
-                    return bad;
-                }
-                ctx.count("order");
-                mref.with_manager_exclusive(|m| {
-                    oxidd_reorder::set_var_order(m, &p);
-                    let l2v: Vec<String> = (0..n).map(|l| m.level_to_var(l).to_string()).collect();
-                    // oracle: the requested order is established
-                    for (l, &v) in p.iter().enumerate() {
-                        if m.var_to_level(v) != l as u32 || m.level_to_var(l as u32) != v {
-                            ctx.fail("order", &format!("set_var_order({:?}) left variable {} at level {}", p, v, m.var_to_level(v)));
+                    if x.contains('=') {
+                        match *x {
+                            "seq=1" => seq = true,
+                            "seq=0" => {}
+                            _ => return bad,
+                        }
+                    } else {
+                        match pnat(x) {
+                            Some(v) if v < n && !p.contains(&v) => p.push(v),
+                            _ => return bad,
                         }
                     }
-                    l2v.join(" ")
-                })
+                }
+                ctx.count(if seq { "order.seq" } else { "order" });
+                ctx.count(if p.len() == n as usize { "order.total" } else { "order.partial" });
+                if !self.handles.is_empty() {
+                    ctx.count("order.live");
+                }
+                let before = self.l2v();
+                let mut names: Vec<&String> = self.handles.keys().collect();
+                names.sort();
+                names.truncate(200);
+                let trees_before: Vec<String> = names.iter().map(|k| tree_str(&self.handles[*k])).collect();
+                mref.with_manager_exclusive(|m| {
+                    if seq {
+                        oxidd_reorder::set_var_order_seq(m, &p);
+                    } else {
+                        oxidd_reorder::set_var_order(m, &p);
+                    }
+                });
+                let l2v = self.l2v();
+                let changed = names.iter().zip(&trees_before).filter(|(k, t)| tree_str(&self.handles[**k]) != **t).count();
+                ctx.add("order.handles-rewritten", changed as u64);
+                if l2v != before {
+                    ctx.count("order.changed");
+                }
+                // oracle (C08): the requested relative order is established ...
+                let pos = |v: u32| l2v.iter().position(|&x| x == v);
+                for q in p.windows(2) {
+                    if pos(q[0]) >= pos(q[1]) {
+                        ctx.fail("order-not-established", &format!("set_var_order({:?}) from {:?} gives level_to_var {:?}", p, before, l2v));
+                        break;
+                    }
+                }
+                // ... every live handle denotes the same function of the variables ...
+                self.check_tables("reorder-changed-function", &format!("after set_var_order({:?}) from level_to_var {:?}", p, before), ctx);
+                // ... and the store is a well-formed reduced ordered diagram (C03)
+                self.audit(line, ctx);
+                for f in self.handles.values() {
+                    if !is_nf(f) {
+                        ctx.fail("not-normal-form", &format!("after `{}`: {} is not ordered and reduced", line, tree_str(f)));
+                        break;
+                    }
+                }
+                l2v.iter().map(|v| v.to_string()).collect::<Vec<_>>().join(" ")
             }
             ("const", 3) => {
                 if !fresh(self, w[1]) {
@@ -378,7 +595,7 @@ impl Scenario for Tdd {
                         break;
                     }
                 }
-                self.define(w[1], f)
+                self.define(w[1], f, ctx)
             }
             ("var", 3) => {
                 let Some(v) = pnat(w[2]) else { return bad };
@@ -398,7 +615,7 @@ impl Scenario for Tdd {
                     }
                 }
                 self.check_nf(&f, line, ctx);
-                self.define(w[1], f)
+                self.define(w[1], f, ctx)
             }
             ("node", 6) => {
                 let Some(v) = pnat(w[2]) else { return bad };
@@ -439,7 +656,7 @@ impl Scenario for Tdd {
                     }
                 }
                 self.check_nf(&f, line, ctx);
-                self.define(w[1], f)
+                self.define(w[1], f, ctx)
             }
             ("not", 3) | ("enot", 3) | ("notowned", 3) | ("notownedf", 3) => {
                 let Some(a) = self.handles.get(w[2]) else { return bad };
@@ -472,7 +689,7 @@ impl Scenario for Tdd {
                     }
                 }
                 self.check_nf(&f, line, ctx);
-                self.define(w[1], f)
+                self.define(w[1], f, ctx)
             }
             ("op", 5) | ("eop", 5) => {
                 if !OPS.contains(&w[2]) {
@@ -539,7 +756,7 @@ impl Scenario for Tdd {
                     }
                 }
                 self.check_nf(&f, line, ctx);
-                self.define(w[1], f)
+                self.define(w[1], f, ctx)
             }
             ("ite", 5) | ("eite", 5) => {
                 let (Some(a), Some(b), Some(c)) = (self.handles.get(w[2]), self.handles.get(w[3]), self.handles.get(w[4])) else {
@@ -584,7 +801,7 @@ impl Scenario for Tdd {
                     }
                 }
                 self.check_nf(&f, line, ctx);
-                self.define(w[1], f)
+                self.define(w[1], f, ctx)
             }
             ("eval", 3) => {
                 let Some(f) = self.handles.get(w[1]) else { return bad };
@@ -670,7 +887,72 @@ impl Scenario for Tdd {
                     }
                 }
             }
+            ("clone", 3) => {
+                let Some(a) = self.handles.get(w[2]) else { return bad };
+                if !fresh(self, w[1]) {
+                    return bad;
+                }
+                ctx.count("clone");
+                let f = a.clone();
+                if f != *a {
+                    ctx.fail("clone", "a cloned handle is not equal to its original");
+                }
+                if let Some(t) = self.tables.get(w[2]).cloned() {
+                    self.tables.insert(w[1].to_string(), t);
+                }
+                self.handles.insert(w[1].to_string(), f);
+                "ok".into()
+            }
+            ("eq", 3) => {
+                let (Some(a), Some(b)) = (self.handles.get(w[1]), self.handles.get(w[2])) else { return bad };
+                ctx.count("eq");
+                let same = a == b;
+                // oracle (C01): handle equality <=> equal value tables
+                if let (Some(ta), Some(tb)) = (self.tables.get(w[1]), self.tables.get(w[2])) {
+                    if (ta == tb) != same {
+                        ctx.fail("canonicity", &format!("`{}`: handles {} = {} and {} = {} are {} but their value tables are {}", line, w[1], tree_str(a), w[2], tree_str(b), if same { "equal" } else { "different" }, if ta == tb { "equal" } else { "different" }));
+                    }
+                }
+                if same { "1".into() } else { "0".into() }
+            }
+            ("count", 2) => {
+                let Some(f) = self.handles.get(w[1]) else { return bad };
+                ctx.count("count");
+                let c = f.node_count();
+                if let Some(t) = self.tables.get(w[1]) {
+                    let l2v = self.l2v();
+                    let e = ref_node_count(t, &l2v);
+                    if c != e {
+                        ctx.fail("node-count", &format!("node_count({}) = {} for {} but the reduced diagram of its value table under order {:?} has {} nodes", w[1], c, tree_str(f), l2v, e));
+                    }
+                }
+                c.to_string()
+            }
+            ("gc", 1) => {
+                ctx.count("gc");
+                let (before, ret, after) = mref.with_manager_shared(|m| {
+                    let before = m.num_inner_nodes();
+                    let ret = m.gc();
+                    (before, ret, m.num_inner_nodes())
+                });
+                // oracles (C05): the return value is the number of removed nodes, exactly the nodes
+                // reachable from live handles remain, every live handle keeps its function
+                if before < after || before - after != ret {
+                    ctx.fail("gc-return", &format!("gc() returned {} but num_inner_nodes went from {} to {}", ret, before, after));
+                }
+                let reach = self.reachable();
+                if reach != after {
+                    ctx.fail("gc-not-exact", &format!("after gc {} inner nodes are stored but {} are reachable from the live handles", after, reach));
+                }
+                if ret > 0 {
+                    ctx.count("gc.collected");
+                }
+                self.check_tables("gc-changed-function", "after gc", ctx);
+                self.audit(line, ctx);
+                after.to_string()
+            }
             ("drop", 2) => {
+                self.tables.remove(w[1]);
                 if self.handles.remove(w[1]).is_some() {
                     "ok".into()
                 } else {
@@ -679,6 +961,7 @@ impl Scenario for Tdd {
             }
             ("dropall", 1) => {
                 self.handles.clear();
+                self.tables.clear();
                 ctx.count("dropall");
                 let left = mref.with_manager_shared(|m| {
                     m.gc();
@@ -687,6 +970,7 @@ impl Scenario for Tdd {
                 if left != 0 {
                     ctx.fail("nodes-left", &format!("{} inner nodes survive after dropping every handle and gc (an edge leaked)", left));
                 }
+                self.audit(line, ctx);
                 left.to_string()
             }
             _ => bad,
@@ -753,6 +1037,12 @@ impl<'a> Gen<'a> {
             self.line(&format!("eval {} {}", h, ds));
         }
     }
+    /// `order` line: the sequential variant one time in three
+    fn order(&mut self, p: &[u32], _n: u32) {
+        let o: Vec<String> = p.iter().map(|v| v.to_string()).collect();
+        let seq = if self.rng.chance(1, 3) { " seq=1" } else { "" };
+        self.line(&format!("order {}{}", o.join(" "), seq));
+    }
     /// a random function over the variables `vars` (top-most first in the *level* order), built bottom-up
     fn random_fn(&mut self, vars: &[u32], p_skip: u64) -> String {
         if vars.is_empty() {
@@ -768,6 +1058,25 @@ impl<'a> Gen<'a> {
         self.line(&format!("node {} {} {} {} {}", h, vars[0], a, b, c));
         h
     }
+}
+
+fn permutations(n: u32) -> Vec<Vec<u32>> {
+    fn go(rest: &mut Vec<u32>, cur: &mut Vec<u32>, out: &mut Vec<Vec<u32>>) {
+        if rest.is_empty() {
+            out.push(cur.clone());
+            return;
+        }
+        for i in 0..rest.len() {
+            let v = rest.remove(i);
+            cur.push(v);
+            go(rest, cur, out);
+            cur.pop();
+            rest.insert(i, v);
+        }
+    }
+    let mut out = Vec::new();
+    go(&mut (0..n).collect(), &mut Vec::new(), &mut out);
+    out
 }
 
 fn generate(cfg: &GenCfg, rng: &mut Rng, w: &mut dyn Write) {
@@ -1023,6 +1332,182 @@ fn generate(cfg: &GenCfg, rng: &mut Rng, w: &mut dyn Write) {
         g.line("dropall");
     }
 
+    // --- R1: all 27 one-variable functions of every variable alive while going through all orders
+    // (total, partial, sequential variant), with gc / count / eq in between and operations afterwards
+    for n in [2u32, 3] {
+        for rep in 0..(if thorough { 6 } else { 2 }) {
+            g.start(&format!("reorder1-n{}-{}", n, rep), n, &[]);
+            let pre = ["a", "b", "c"];
+            for v in 0..n {
+                g.one_var(pre[v as usize], v);
+            }
+            let mut perms = permutations(n);
+            g.rng.shuffle(&mut perms);
+            let mut perms2 = permutations(n);
+            g.rng.shuffle(&mut perms2);
+            perms.extend(perms2);
+            for (i, p) in perms.iter().enumerate() {
+                g.order(p, n);
+                let h = format!("{}{}", pre[g.rng.below(n as u64) as usize], g.rng.below(27));
+                g.line(&format!("count {}", h));
+                if i % 3 == 0 {
+                    g.line("gc");
+                }
+                let h2 = format!("{}{}", pre[g.rng.below(n as u64) as usize], g.rng.below(27));
+                g.line(&format!("eq {} {}", h, h2));
+                // operations on the reordered diagrams (results across two levels)
+                for _ in 0..6 {
+                    let x = format!("{}{}", pre[g.rng.below(n as u64) as usize], g.rng.below(27));
+                    let y = format!("{}{}", pre[g.rng.below(n as u64) as usize], g.rng.below(27));
+                    let op = *g.rng.pick(&OPS);
+                    let r = g.binop(op, &x, &y);
+                    if g.rng.chance(1, 2) {
+                        g.line(&format!("drop {}", r));
+                    }
+                }
+            }
+            g.line("gc");
+            g.line("dropall");
+        }
+    }
+
+    // --- R2: sampled two- and three-variable functions alive while going through the orders
+    let n_r2 = if thorough { 120 * scale } else { 16 * scale };
+    for ci in 0..n_r2 {
+        let n = 2 + (ci % 3) as u32; // 2, 3, 4 variables
+        let mut cur: Vec<u32> = (0..n).collect();
+        g.rng.shuffle(&mut cur);
+        g.start(&format!("reorder2-{}", ci), n, &cur);
+        let mut pool = Vec::new();
+        for _ in 0..(if n == 2 { 40 } else { 14 }) {
+            // functions over two (sometimes three) of the variables, in the current level order
+            let mut vs: Vec<u32> = cur.clone();
+            while vs.len() > 2 + g.rng.below(2) as usize {
+                let i = g.rng.below(vs.len() as u64) as usize;
+                vs.remove(i);
+            }
+            let f = g.random_fn(&vs, 0);
+            pool.push(f);
+        }
+        let mut perms = permutations(n);
+        g.rng.shuffle(&mut perms);
+        perms.truncate(8);
+        for p in &perms {
+            g.order(p, n);
+            for _ in 0..3 {
+                let h = g.rng.pick(&pool).clone();
+                g.line(&format!("count {}", h));
+            }
+            let (x, y) = (g.rng.pick(&pool).clone(), g.rng.pick(&pool).clone());
+            g.line(&format!("eq {} {}", x, y));
+            if g.rng.chance(1, 2) {
+                g.line("gc");
+            }
+            for _ in 0..4 {
+                let (x, y, z) = (g.rng.pick(&pool).clone(), g.rng.pick(&pool).clone(), g.rng.pick(&pool).clone());
+                let op = *g.rng.pick(&OPS);
+                let r = g.binop(op, &x, &y);
+                let r2 = g.ite(&x, &y, &z);
+                if g.rng.chance(1, 3) {
+                    pool.push(r);
+                } else {
+                    g.line(&format!("drop {}", r));
+                }
+                g.line(&format!("drop {}", r2));
+            }
+            // drop a few so that the next collection has something to do
+            for _ in 0..2 {
+                if pool.len() > 6 {
+                    let i = g.rng.below(pool.len() as u64) as usize;
+                    let h = pool.swap_remove(i);
+                    g.line(&format!("drop {}", h));
+                }
+            }
+        }
+        g.line("gc");
+        g.line("dropall");
+    }
+
+    // --- R3: random histories over 2-4 variables mixing operations, clone/drop, gc and reorderings
+    let n_h = if thorough { 500 * scale } else { 50 * scale };
+    let steps = if thorough { 160 } else { 70 };
+    for ci in 0..n_h {
+        let n = 2 + (ci % 3) as u32;
+        g.start(&format!("hist-{}", ci), n, &[]);
+        let mut known: Option<Vec<u32>> = Some((0..n).collect());
+        let mut pool: Vec<String> = vec!["cf".into(), "cu".into(), "ct".into()];
+        for v in 0..n {
+            let h = g.fresh("x");
+            g.line(&format!("var {} {}", h, v));
+            pool.push(h);
+        }
+        for _ in 0..steps {
+            if pool.len() < 3 {
+                let h = g.fresh("x");
+                let v = g.rng.below(n as u64);
+                g.line(&format!("var {} {}", h, v));
+                pool.push(h);
+                let h = g.fresh("k");
+                let c = *g.rng.pick(&["f", "u", "t"]);
+                g.line(&format!("const {} {}", h, c));
+                pool.push(h);
+            }
+            let k = g.rng.below(100);
+            if k < 30 {
+                let (x, y) = (g.rng.pick(&pool).clone(), g.rng.pick(&pool).clone());
+                let op = *g.rng.pick(&OPS);
+                let r = g.binop(op, &x, &y);
+                pool.push(r);
+            } else if k < 35 {
+                let x = g.rng.pick(&pool).clone();
+                let r = g.not(&x);
+                pool.push(r);
+            } else if k < 45 {
+                let (x, y, z) = (g.rng.pick(&pool).clone(), g.rng.pick(&pool).clone(), g.rng.pick(&pool).clone());
+                let r = g.ite(&x, &y, &z);
+                pool.push(r);
+            } else if k < 53 {
+                if let Some(cur) = known.clone() {
+                    let skip = g.rng.below(4);
+                    let r = g.random_fn(&cur, skip);
+                    pool.push(r);
+                }
+            } else if k < 58 {
+                let x = g.rng.pick(&pool).clone();
+                let r = g.fresh("c");
+                g.line(&format!("clone {} {}", r, x));
+                pool.push(r);
+            } else if k < 72 {
+                let i = g.rng.below(pool.len() as u64) as usize;
+                let h = pool.swap_remove(i);
+                g.line(&format!("drop {}", h));
+            } else if k < 78 {
+                g.line("gc");
+            } else if k < 88 {
+                let mut p: Vec<u32> = (0..n).collect();
+                g.rng.shuffle(&mut p);
+                if g.rng.chance(2, 5) {
+                    let keep = g.rng.below(n as u64) as usize;
+                    p.truncate(keep.max(if g.rng.chance(1, 4) { 0 } else { 2 }).min(n as usize));
+                }
+                known = if p.len() == n as usize { Some(p.clone()) } else { None };
+                g.order(&p, n);
+            } else if k < 93 {
+                let (x, y) = (g.rng.pick(&pool).clone(), g.rng.pick(&pool).clone());
+                g.line(&format!("eq {} {}", x, y));
+            } else if k < 97 {
+                let x = g.rng.pick(&pool).clone();
+                g.line(&format!("count {}", x));
+            } else {
+                let x = g.rng.pick(&pool).clone();
+                g.evals(&x, n, 2);
+                g.line(&format!("cof {}", x));
+            }
+        }
+        g.line("gc");
+        g.line("dropall");
+    }
+
     // --- malformed lines: both sides must answer `bad-op` and keep their state
     g.line("case malformed");
     g.line("const cf f");
@@ -1060,12 +1545,26 @@ fn generate(cfg: &GenCfg, rng: &mut Rng, w: &mut dyn Write) {
     g.line("drop zz");
     g.line("not r3 zz");
     g.line("frobnicate");
+    g.line("order 0 0");
+    g.line("order 5");
+    g.line("order 0 1 par=1");
+    g.line("order 1 0 seq=1");
+    g.line("eq x0");
+    g.line("eq x0 zz");
+    g.line("count zz");
+    g.line("count x0 x1");
+    g.line("clone x0 x1");
+    g.line("clone q1 zz");
+    g.line("clone q1 x1");
+    g.line("eq q1 x1");
+    g.line("gc 1");
+    g.line("gc");
     g.line("op r4 and x0 x1");
     g.line("dropall");
 }
 
 fn make(_f: &BTreeMap<String, String>) -> Box<dyn Scenario> {
-    Box::new(Tdd { mref: None, nvars: 0, handles: HashMap::new() })
+    Box::new(Tdd { mref: None, nvars: 0, handles: HashMap::new(), tables: HashMap::new() })
 }
 
 fn main() {
